@@ -70,7 +70,7 @@ def fmt_cli(src, width, workdir, overwrite=False):
     if os.path.exists(pf):
         os.remove(pf)
     with open(p1, 'wb') as fh:
-        fh.write(rc.write_p8(regions, src, version=ambient.VERSION[0]))
+        fh.write(rc.write_p8_variant(random.Random(len(src)), regions, src, version=ambient.VERSION[0]))
     rcode = tool.main([ambient.vflag(), 'luafmt'] + (['--overwrite'] if overwrite else []) + ['--indentwidth', str(width), p1])
     if rcode:
         raise RuntimeError('p8tool luafmt returned %r' % rcode)
